@@ -284,3 +284,37 @@ def selfcheck_wiring(w, impl, rng):
         if problems:
             mism.append({"wrapper": name, "config": {k: (v if isinstance(v, (bool, int, float)) else None) for k, v in other.items()}, "problems": problems})
     return cases, mism
+
+
+def selfcheck_losses(ir, w, impl, rng):
+    """nn.NLLLoss / nn.CrossEntropyLoss with reduction sum | mean | none on real Tensors vs the translated reading:
+    per-row value (IR of the forward kernel, evaluated per row) then the reduction Loss.__call__ was translated to."""
+    lo = w.get("__losses__") or {}
+    np_ = impl.np
+    sg, nn = impl.synapgrad, impl.nn
+    rs = np.random.RandomState(rng.randrange(2 ** 31))
+    ev = G.Ev(ir)
+    cases, mism = 0, []
+    for cls, wrapper in lo.get("modules", {}).items():
+        kname = G.WRAPPERS.get(wrapper, "") + "_forward"
+        if kname not in ir["kernels"]:
+            continue
+        for red in ("sum", "mean", "none"):
+            if red not in lo.get("reduce", {}):
+                continue
+            for _ in range(4):
+                N, C = int(rs.randint(1, 6)), int(rs.randint(1, 5))
+                x = rs.standard_normal((N, C)) * 3
+                y = rs.randint(0, C, size=(N,))
+                cases += 1
+                try:
+                    out = np_.array(getattr(nn, cls)(reduction=red)(sg.Tensor(x.copy()), sg.Tensor(y.copy())).data, dtype=np_.float64)
+                except Exception as ex:
+                    mism.append({"module": cls, "reduction": red, "error": repr(ex)}); continue
+                rows = [ev.run(kname, {"y_pred": x[r].tolist(), "y_true": int(y[r])})[0] for r in range(N)]
+                op = lo["reduce"][red]
+                want = [math.fsum(rows)] if op == "sum" else [math.fsum(rows) / N] if op == "mean" else rows
+                got = out.reshape(-1).tolist()
+                if len(got) != len(want) or not all(close(a, b) for a, b in zip(got, want)):
+                    mism.append({"module": cls, "reduction": red, "x": x.tolist(), "y": y.tolist(), "translated": want, "implementation": got})
+    return cases, mism
